@@ -8,6 +8,7 @@
 import EEM.Real
 import EEM.Model.Refine
 import EEM.Bridge.Curve
+import EEM.Bridge.Kept
 import Mathlib.Tactic.Linarith
 
 namespace EEM.Props.C12
@@ -172,6 +173,91 @@ theorem C12_store_roundtrip (ids : CoefId) (x : List ℝ) (c : Coeffs ℝ)
   · split at h <;> (cases h; rfl)
   · cases h; rfl
   · cases h
+
+/-! ### the kept coefficients describe the curve the optimiser scored -/
+
+open EEM.Bridge.Kept in
+/-- optimiser outcomes covered by the theorem below: the segment limits lie strictly inside the
+observed range, balance points are ordered and inside the segment box, slopes and smoothing are
+non-negative, and the outcome is none of the three listed findings — C12-F1 (a zero-slope side still
+carrying a smoothing fraction), C12-F2 (crossed balance points with smoothing), C12-F3 (a
+single-slope balance point on or beyond the segment limit). -/
+inductive Covered (Tmin Tmax Tmins Tmaxs : ℝ) : Gen.ModelKey → List ℝ → Prop
+  | smooth_both (hb βh pkh cb βc pkc c : ℝ) : Tmins ≤ hb → hb ≤ cb → cb ≤ Tmaxs → 0 ≤ pkh → 0 ≤ pkc → 0 < βh → 0 < βc →
+      Covered Tmin Tmax Tmins Tmaxs .hdd_tidd_cdd_smooth [hb, βh, pkh, cb, βc, pkc, c]
+  | smooth_heat_only (hb βh pkh cb c : ℝ) : Tmins ≤ hb → hb ≤ cb → cb ≤ Tmaxs → 0 ≤ pkh → 0 < βh → hb < Tmaxs → Tmins < cb →
+      Covered Tmin Tmax Tmins Tmaxs .hdd_tidd_cdd_smooth [hb, βh, pkh, cb, 0, 0, c]
+  | smooth_cool_only (hb cb βc pkc c : ℝ) : Tmins ≤ hb → hb ≤ cb → cb ≤ Tmaxs → 0 ≤ pkc → 0 < βc → hb < Tmaxs → Tmins < cb →
+      Covered Tmin Tmax Tmins Tmaxs .hdd_tidd_cdd_smooth [hb, 0, 0, cb, βc, pkc, c]
+  | smooth_flat (hb pkh cb pkc c : ℝ) : Tmins ≤ hb → hb ≤ cb → cb ≤ Tmaxs → 0 ≤ pkh → 0 ≤ pkc → 0 < Tmax →
+      Covered Tmin Tmax Tmins Tmaxs .hdd_tidd_cdd_smooth [hb, 0, pkh, cb, 0, pkc, c]
+  | linear_both (hb βh cb βc c : ℝ) : Tmins ≤ hb → hb ≤ cb → cb ≤ Tmaxs → 0 < βh → 0 < βc →
+      Covered Tmin Tmax Tmins Tmaxs .hdd_tidd_cdd [hb, βh, cb, βc, c]
+  | linear_heat_only (hb βh cb c : ℝ) : Tmins ≤ hb → hb ≤ cb → cb ≤ Tmaxs → 0 < βh →
+      Covered Tmin Tmax Tmins Tmaxs .hdd_tidd_cdd [hb, βh, cb, 0, c]
+  | linear_cool_only (hb cb βc c : ℝ) : Tmins ≤ hb → hb ≤ cb → cb ≤ Tmaxs → 0 < βc →
+      Covered Tmin Tmax Tmins Tmaxs .hdd_tidd_cdd [hb, 0, cb, βc, c]
+  | linear_flat (hb cb c : ℝ) : Tmins ≤ hb → hb ≤ cb → cb ≤ Tmaxs → 0 < Tmax →
+      Covered Tmin Tmax Tmins Tmaxs .hdd_tidd_cdd [hb, 0, cb, 0, c]
+  | one_smooth_heat (bp β k c : ℝ) : Tmins ≤ bp → bp ≤ Tmaxs → β < 0 → 0 ≤ k →
+      Covered Tmin Tmax Tmins Tmaxs .c_hdd_tidd_smooth [bp, β, k, c]
+  | one_smooth_cool (bp β k c : ℝ) : Tmins ≤ bp → bp ≤ Tmaxs → 0 < β → 0 ≤ k →
+      Covered Tmin Tmax Tmins Tmaxs .c_hdd_tidd_smooth [bp, β, k, c]
+  | one_smooth_flat (bp k c : ℝ) : Tmins ≤ bp → bp ≤ Tmaxs → 0 ≤ k → 0 < Tmax →
+      Covered Tmin Tmax Tmins Tmaxs .c_hdd_tidd_smooth [bp, 0, k, c]
+  | one_linear_heat (bp β c : ℝ) : Tmins ≤ bp → bp ≤ Tmaxs → β < 0 → Covered Tmin Tmax Tmins Tmaxs .c_hdd_tidd [bp, β, c]
+  | one_linear_cool (bp β c : ℝ) : Tmins ≤ bp → bp ≤ Tmaxs → 0 < β → Covered Tmin Tmax Tmins Tmaxs .c_hdd_tidd [bp, β, c]
+  | one_linear_flat (bp c : ℝ) : Tmins ≤ bp → bp ≤ Tmaxs → 0 < Tmax → Covered Tmin Tmax Tmins Tmaxs .c_hdd_tidd [bp, 0, c]
+  | tidd (c : ℝ) : 0 < Tmax → Covered Tmin Tmax Tmins Tmaxs .tidd [c]
+
+open EEM.Bridge.Kept in
+/-- **the kept coefficients describe the curve the optimiser scored**: for every covered optimiser
+outcome — all five coefficient layouts, every reduction `_refine_model` makes (two slopes, one slope,
+flat; smoothing kept or dropped; the self-call of `reduce_model`) — and EVERY temperature, the record
+that is stored (`get_full_model_x` → `reduce_model` → `from_np_arrays`) is evaluable and
+`_predict_submodel` of it returns exactly the value the objective scored for the raw vector.
+Outside `Covered` lie the three listed findings and the boundary cases (crossed balance points
+without smoothing, balance points on the ends of the observed range), which the check decides by
+running the real code. -/
+theorem C12_kept_reproduces_scored {Tmin Tmax Tmins Tmaxs : ℝ} (L : Limits Tmin Tmax Tmins Tmaxs)
+    {key : Gen.ModelKey} {raw : List ℝ} (h : Covered Tmin Tmax Tmins Tmaxs key raw) (T : ℝ) :
+    KeptIsScored key raw Tmin Tmax Tmins Tmaxs T := by
+  cases h with
+  | smooth_both hb βh pkh cb βc pkc c h1 ord h2 p0 q0 bh bc =>
+    exact two_smooth_both (c := c) (L := L) (h1 := h1) (ord := ord) (h2 := h2) (p0 := p0) (q0 := q0) (bh := bh) (bc := bc) (T := T)
+  | smooth_heat_only hb βh pkh cb c h1 ord h2 p0 bh hbs hcs =>
+    exact two_smooth_heat_only (c := c) (pkc := 0) (L := L) (h1 := h1) (ord := ord) (h2 := h2) (p0 := p0) (q0 := le_rfl)
+      (bh := bh) (hbs := hbs) (hcs := hcs) (T := T)
+  | smooth_cool_only hb cb βc pkc c h1 ord h2 q0 bc hbs hcs =>
+    exact two_smooth_cool_only (c := c) (pkh := 0) (L := L) (h1 := h1) (ord := ord) (h2 := h2) (p0 := le_rfl) (q0 := q0)
+      (bc := bc) (hbs := hbs) (hcs := hcs) (T := T)
+  | smooth_flat hb pkh cb pkc c h1 ord h2 p0 q0 hT0 =>
+    exact two_smooth_flat (c := c) (L := L) (h1 := h1) (ord := ord) (h2 := h2) (p0 := p0) (q0 := q0) (hT0 := hT0) (T := T)
+  | linear_both hb βh cb βc c h1 ord h2 bh bc =>
+    exact two_linear_both (c := c) (L := L) (h1 := h1) (ord := ord) (h2 := h2) (bh := bh) (bc := bc) (T := T)
+  | linear_heat_only hb βh cb c h1 ord h2 bh =>
+    exact two_linear_heat_only (c := c) (L := L) (h1 := h1) (ord := ord) (h2 := h2) (bh := bh) (T := T)
+  | linear_cool_only hb cb βc c h1 ord h2 bc =>
+    exact two_linear_cool_only (c := c) (L := L) (h1 := h1) (ord := ord) (h2 := h2) (bc := bc) (T := T)
+  | linear_flat hb cb c h1 ord h2 hT0 =>
+    exact two_linear_flat (c := c) (L := L) (h1 := h1) (ord := ord) (h2 := h2) (hT0 := hT0) (T := T)
+  | one_smooth_heat bp β k c h1 h2 hβ hk =>
+    exact EEM.Bridge.Kept.one_smooth_heat (c := c) (L := L) (h1 := h1) (h2 := h2) (hβ := hβ) (hk0 := hk) (T := T)
+  | one_smooth_cool bp β k c h1 h2 hβ hk =>
+    exact EEM.Bridge.Kept.one_smooth_cool (c := c) (L := L) (h1 := h1) (h2 := h2) (hβ := hβ) (hk0 := hk) (T := T)
+  | one_smooth_flat bp k c h1 h2 hk hT0 =>
+    exact EEM.Bridge.Kept.one_smooth_flat (c := c) (L := L) (h1 := h1) (h2 := h2) (hT0 := hT0) (hkk := hk) (T := T)
+  | one_linear_heat bp β c h1 h2 hβ =>
+    exact EEM.Bridge.Kept.one_linear_heat (c := c) (L := L) (h1 := h1) (h2 := h2) (hβ := hβ) (T := T)
+  | one_linear_cool bp β c h1 h2 hβ =>
+    exact EEM.Bridge.Kept.one_linear_cool (c := c) (L := L) (h1 := h1) (h2 := h2) (hβ := hβ) (T := T)
+  | one_linear_flat bp c h1 h2 hT0 =>
+    exact EEM.Bridge.Kept.one_linear_flat (c := c) (L := L) (h1 := h1) (h2 := h2) (hT0 := hT0) (T := T)
+  | tidd c hT0 => exact tidd_case c Tmin Tmax Tmins Tmaxs hT0 T
+
+/-- non-vacuity: a both-slopes smoothed outcome inside its box is covered -/
+example : Covered 10 95 20 85 .hdd_tidd_cdd_smooth [55, 1.2, 0.3, 68, 0.8, 0.2, 14] := by
+  refine Covered.smooth_both 55 1.2 0.3 68 0.8 0.2 14 ?_ ?_ ?_ ?_ ?_ ?_ ?_ <;> norm_num
 
 /-! ### Non-vacuity -/
 example : fromNpArrays (α := ℝ) .c3 [60, -0.8, 12]
